@@ -230,6 +230,9 @@ class C10(E1Check):
                 for w in wlist:
                     if issubclass(w.category, SignalQueueFull):
                         m = re.search(r"\((\d+)\)", str(w.message))
+                        if m is None:
+                            # the wording of the warning is not part of the property: fall back to unattributed counting
+                            st["unattributed"] = True
                         sizes.append(int(m.group(1)) if m else -1)
                 log("disp-", n, tuple(sorted(sizes)), type(err).__name__ if err else None, env.env_events - ev0)
                 if ev.source is not insts[i] or ev.topic != a or not isinstance(getattr(ev, "time", None), float):
@@ -293,7 +296,12 @@ class C10(E1Check):
                     continue
                 in_limbo = cancel_at is not None and j > cancel_at
                 warned = spec["q"] in dend[n][2]
-                if spec["filter"] != "none":
+                if st.get("unattributed"):
+                    # warnings cannot be attributed to subscribers: derive the loss from the backlog model alone
+                    backlog0 = len(accepted) - sum(1 for x in pulled_idx if x < j) if spec["filter"] != "none" else 0
+                    warned = backlog0 > spec["q"] or (backlog0 == spec["q"] and len(dend[n][2]) > 0)
+                    unsure = True
+                if spec["filter"] != "none" and not st.get("unattributed"):
                     backlog = len(accepted) - sum(1 for x in pulled_idx if x < j)
                     if warned and backlog < spec["q"] and not in_limbo:
                         fail("overflow", f"subscriber {i} (queue {spec['q']}) lost event {n} with a backlog of only {backlog}")
@@ -306,6 +314,8 @@ class C10(E1Check):
             # warnings of this subscriber's size for events that are not its own
             for j, ev in disp:
                 n, inst, attr = ev[1], ev[2], ev[3]
+                if st.get("unattributed"):
+                    break
                 if ((inst, attr) not in mine or j < enter or j > leaving) and spec["q"] in dend[n][2]:
                     others = [k for k, s2 in enumerate(program["subs"]) if k != i and s2["q"] == spec["q"]]
                     if not others:
